@@ -6,3 +6,9 @@ native('C08.call_join_laws', ['C07', 'C08', 'C09', 'C05'], 'bounded', '14 call s
        what='real merge_call_results (refuter paired with the Verus contract and the join lemmas of unit call_merger): idempotent, commutative and associative up to sender '
             'and generation, a result held by either side survives with its content id, a pending request never replaces a result',
        pairs=['call_merger:merge_call_results'])
+
+native('C11.canon_join_laws', ['C11', 'C07', 'C08', 'C09'], 'bounded', '5 canon states (requests of 2 peers, executed over 3 content ids): 5 + 25 pairs + 125 triples', 'air-trace-handler',
+       'crates/air-lib/trace-handler/src/merger/canon_merger.rs', 'canon_join_laws.rs', 'verif_native_canon_join_laws::merge_canon_results_is_a_join',
+       what='real merge_canon_results (refuter paired with the Verus contract and the canon join lemmas): an executed canon is never replaced by a request or by another id '
+            '(two different ids are rejected in both orders), idempotent, commutative and associative up to the sender of a request',
+       pairs=['canon_merger:merge_canon_results'])
